@@ -23,9 +23,36 @@ pub struct Sc {
     pub today: Vec<Date>,
     pub procs: Vec<Proc>,
     pub cmds: Vec<Vec<String>>,
+    /// also run the commands with the shipped (unhooked) binary on a real directory
+    #[serde(default)]
+    pub real_leg: bool,
 }
 
 pub struct C13;
+
+/// The unhooked okane binary built from /repo's working tree with the guard off.
+fn real_binary() -> Option<std::path::PathBuf> {
+    let p = crate::driver::verif_root().join("sim/target-real/debug/okane");
+    if p.is_file() {
+        Some(p)
+    } else {
+        None
+    }
+}
+
+/// Runs `argv` with the shipped binary on the world materialised in a real directory;
+/// returns (exit ok, stdout) with the directory prefix mapped back to /w.
+fn run_real(files: &std::collections::BTreeMap<String, Vec<u8>>, argv: &[String]) -> Option<(bool, Vec<u8>)> {
+    let bin = real_binary()?;
+    let dir = crate::checks::c11::materialise(files).ok()?;
+    let prefix = dir.to_string_lossy().to_string();
+    let args: Vec<String> = argv.iter().map(|a| if let Some(rest) = a.strip_prefix("/w/") { format!("{}/{}", prefix, rest) } else { a.clone() }).collect();
+    let out = std::process::Command::new(bin).args(&args).current_dir(&dir).env_remove("RUST_LOG").output();
+    crate::checks::c11::cleanup_real(&dir);
+    let out = out.ok()?;
+    let stdout = String::from_utf8_lossy(&out.stdout).replace(&prefix, "/w").into_bytes();
+    Some((out.status.success(), stdout))
+}
 
 pub fn eval_exprs(rng: &mut Rng, coms: &[String]) -> String {
     let c = |rng: &mut Rng| rng.pick(coms).clone();
@@ -124,6 +151,7 @@ impl Check for C13 {
                 today: vec![Date::new(2024, 6, 15); n_procs],
                 procs,
                 cmds: vec![sv(&["import", "--config", "/w/import.yml", &source])],
+                real_leg: _index % 64 == 0,
             };
         }
         let (world, coms, accounts) = if rng.chance(1, 5) {
@@ -199,6 +227,7 @@ impl Check for C13 {
             today,
             procs,
             cmds,
+            real_leg: _index % 64 == 0,
         }
     }
 
@@ -269,6 +298,39 @@ impl Check for C13 {
         if importing {
             out.count("probe.import-world");
         }
+        // stub fidelity: the shipped binary on a real directory prints what simulated process 0 prints
+        if sc.real_leg {
+            let (plain, _) = sc.world.render();
+            for cmd in &sc.cmds {
+                // `balance -X` without --now reads the real clock: not comparable
+                if cmd.iter().any(|a| a == "-X") && cmd[0] == "balance" && !cmd.iter().any(|a| a == "--now" || a == "--historical") {
+                    continue;
+                }
+                let sim = observe(&files, &no_faults, &Proc::plain(sc.procs[0].hash_seed), sc.today[0], cmd, out);
+                match run_real(&plain, cmd) {
+                    Some((ok, stdout)) => {
+                        out.count("traces_validated_against_shipped_binary");
+                        if ok != sim.ok || (ok && stdout != sim.stdout) {
+                            out.violate_keyed(
+                                "C13/real-process",
+                                cmd[0].clone(),
+                                format!("{}: shipped binary on a real directory vs simulated process", cmd[0]),
+                                format!(
+                                    "argv={:?}\n--- shipped binary (ok={}) ---\n{}\n--- simulated process (ok={}) ---\n{}{}",
+                                    cmd,
+                                    ok,
+                                    String::from_utf8_lossy(&stdout),
+                                    sim.ok,
+                                    sim.stdout_str(),
+                                    sim.err
+                                ),
+                            );
+                        }
+                    }
+                    None => out.count("harness.real-binary-unavailable"),
+                }
+            }
+        }
         out.nontrivial = canaries.len() >= 2 && (multi || chunked || importing || out.counters.get("vfs.globs_multi").copied().unwrap_or(0) > 0);
         if multi {
             out.count("probe.multi_commodity_amount");
@@ -277,6 +339,11 @@ impl Check for C13 {
 
     fn shrinks(&self, sc: &Sc) -> Vec<Sc> {
         let mut out = Vec::new();
+        if sc.real_leg {
+            let mut s = sc.clone();
+            s.real_leg = false;
+            out.push(s);
+        }
         for c in (0..sc.cmds.len()).rev() {
             if sc.cmds.len() > 1 {
                 let mut s = sc.clone();
@@ -317,7 +384,7 @@ impl Check for C13 {
     }
 
     fn rule(&self) -> &'static str {
-        "a fifth of the runs are importer worlds (okane import on seeded CSV and camt.053 statements under layered configurations and rewrite rules with multi-field elements, hostile text included); the others are seeded ledger worlds (accepted and rejected ones, multi-commodity accounts, price diamonds, include trees) x 2-6 commands x 2-6 simulated processes differing in hash seed, glob order, read/write chunking and EINTR (the clock is pinned: clap caches the default of --now per OS process); a run is non-trivial when at least two of its processes iterate the canary map in different orders and the world has a multi-commodity amount, a multi-match glob, or chunked streams; distinct = structural hash of the tape"
+        "a fifth of the runs are importer worlds (okane import on seeded CSV and camt.053 statements under layered configurations and rewrite rules with multi-field elements, hostile text included); the others are seeded ledger worlds (accepted and rejected ones, multi-commodity accounts, price diamonds, include trees) x 2-6 commands x 2-6 simulated processes differing in hash seed, glob order, read/write chunking and EINTR (the clock is pinned: clap caches the default of --now per OS process); 1 run in 64 also runs every command with the shipped, unhooked binary on the world materialised in a real directory and compares exit status and stdout with a simulated process (stub fidelity); a run is non-trivial when at least two of its processes iterate the canary map in different orders and the world has a multi-commodity amount, a multi-match glob, or chunked streams; distinct = structural hash of the tape"
     }
 
     fn assumptions(&self) -> Vec<&'static str> {
